@@ -6,11 +6,18 @@ open BstreamVerif.Drv
 def shutdownExpect (name : String) : String :=
   s!"{name} returned=1 terminated=1 late=0 innerdown=1 overlap=0" ++ (if name == "eternal/in-factory-2" then " restartref=12a" else "")
 
+/-- outcomes the property allows. Shutting an eternal source down "during the restart delay" races with the end of
+    that delay (3 ms in the harness): either no restart happened, or one restart from the last accepted block did. -/
+def shutdownAllowed (name : String) : List String :=
+  [shutdownExpect name] ++
+    (if name == "eternal/during-restart-delay" then [shutdownExpect name ++ " restartref=12a"] else [])
+
 def handleShutdown (_hdr : List String) (body : List (List String)) : List String :=
   let ops := body.filterMap (fun ws => match ws with | ["op", name] => some name | _ => none)
-  let model := ops.map (fun n => "model " ++ shutdownExpect n)
   let impl := body.filterMap (fun ws => match ws with | "impl" :: rest => some (unwords rest) | _ => none)
-  let bad := (ops.zip impl).find? (fun (n, i) => i != shutdownExpect n)
+  let model := (ops.zip (impl ++ List.replicate ops.length "")).map (fun (n, i) =>
+    "model " ++ (if (shutdownAllowed n).contains i then i else shutdownExpect n))
+  let bad := (ops.zip impl).find? (fun (n, i) => !(shutdownAllowed n).contains i)
   model ++ (match bad with
     | some (n, i) =>
       let why := if (i.splitOn "returned=0").length > 1 then "run-does-not-return-after-shutdown"
